@@ -65,8 +65,8 @@ Proof. intros p Hp. apply (impostor_refused gen_tls_params f1 f2 f3 f4 f8 f9 (So
 Print Assumptions C12_impostor_with_announced_cert_refused.
 
 (* and this rests on crypto/tls's own verification being in force: a host configuration that switches it off (whatever
-   callback it installs instead is outside the model) admits that impostor *)
+   callback it installs instead is outside the model) lets that impostor in *)
 Theorem C12_refuted_verification_off : forall P p,
   tp_host_cfg_at_start P = true -> tp_standard_verification P = false -> p <> HostBrokered ->
   client_accepts (client_cfg P (Some plugin_key) p) (Some impostor_server) = true.
-Proof. exact skip_verify_admits_impostor. Qed.
+Proof. exact skip_verify_lets_impostor_in. Qed.
